@@ -308,16 +308,24 @@ def r18_5(ctx: Ctx) -> None:
         facts = [(norm(cd), pol) for cd, pol in q.facts_at(f, s)]
         ok = any("reporterd is not None" in cd and pol for cd, pol in facts)
         ctx.check(ok, "R18.5", f, s, "sentinel posted whenever a reporter thread exists", "the sentinel is not posted under 'a reporter thread exists'")
-    # alive after join -> error
+    # the join waits for the reporter to drain the queue: no timeout.  A bounded join gives up while events are still queued (slow handlers, or a
+    # reporter thread that is not scheduled for a while): they are then delivered AFTER close() has finished (or raised), whatever close() does next.
+    for j in joins:
+        bounded = bool(j.args) or any(k.arg == "timeout" and not (isinstance(k.value, ast.Constant) and k.value.value is None) for k in j.keywords)
+        ctx.check(not bounded, "R18.5", f, j, "close() waits for the reporter without a time limit",
+                  f"`{norm(j)}` gives up after a fixed time: with a backlog that takes longer (handlers that block briefly, a busy machine) close() raises InternalError or "
+                  "returns while the reporter is still delivering, so events arrive after close() and the archive handle is never closed", construct="bounded reporter join")
+    # where a bounded join is kept, a reporter that is still alive must at least be an error
     alive = [c for c in q.calls(f) if attr_tail(c) == "is_alive"]
-    ok = False
-    for a in alive:
-        tn = q.node_for(f, a)
-        if tn.kind == "test":
-            te = next(s for s in tn.succ if s.kind == "true")
-            ok = q.branch_always_raises(cfg, te)
-    ctx.check(ok, "R18.5", f, f.node, "a reporter still alive after the join is an error", "close() returns normally although the reporter thread is still running (events may arrive after close)",
-              construct="is_alive check")
+    if alive:
+        ok = False
+        for a in alive:
+            tn = q.node_for(f, a)
+            if tn.kind == "test":
+                te = next(s for s in tn.succ if s.kind == "true")
+                ok = q.branch_always_raises(cfg, te)
+        ctx.check(ok, "R18.5", f, f.node, "a reporter still alive after the join is an error", "close() returns normally although the reporter thread is still running (events may arrive after close)",
+                  construct="is_alive check")
 
 
 def run(ctx: Ctx) -> None:
